@@ -477,12 +477,15 @@ func (c04) Shrinks(sc core.Script) []core.Script {
 		c.Ops = c.Ops[n/2:]
 		out = append(out, fix(c))
 	}
-	for i := range s.Ops {
+	for _, rg := range core.DropRanges(len(s.Ops)) {
 		c := cp()
-		c.Ops = append(c.Ops[:i], c.Ops[i+1:]...)
+		c.Ops = append(c.Ops[:rg[0]], c.Ops[rg[1]:]...)
 		out = append(out, fix(c))
 	}
 	for i, o := range s.Ops {
+		if len(s.Ops) > 40 {
+			break
+		}
 		if o.Kind == "pump" {
 			c := cp()
 			c.Ops[i] = c04Op{Kind: "write", N: o.N}
